@@ -114,7 +114,7 @@ func (s Srv) blockStream(vol []uint64, blocks [][3]int) ([]byte, error) {
 // (absent blocks zero) and the list of present local blocks (sorted).
 func (s Srv) getBlocks(uuid string, supervoxels bool) (vol []uint64, present [][3]int, st int, err error) {
 	n, off := s.g.N(), s.g.Off()
-	r := dv.Get(s.url(uuid, fmt.Sprintf("blocks/%d_%d_%d/%d_%d_%d?compression=blocks&supervoxels=%t", n[0], n[1], n[2], off[0], off[1], off[2], supervoxels)))
+	r := tr.Get(s.url(uuid, fmt.Sprintf("blocks/%d_%d_%d/%d_%d_%d?compression=blocks&supervoxels=%t", n[0], n[1], n[2], off[0], off[1], off[2], supervoxels)))
 	st = status(r)
 	vol = make([]uint64, s.g.NVox())
 	if st != stOK {
@@ -170,7 +170,7 @@ func (s Srv) getBlocks(uuid string, supervoxels bool) (vol []uint64, present [][
 
 func (s Srv) getRaw(uuid string, supervoxels bool) ([]uint64, int) {
 	n, off := s.g.N(), s.g.Off()
-	r := dv.Get(s.url(uuid, fmt.Sprintf("raw/0_1_2/%d_%d_%d/%d_%d_%d?supervoxels=%t", n[0], n[1], n[2], off[0], off[1], off[2], supervoxels)))
+	r := tr.Get(s.url(uuid, fmt.Sprintf("raw/0_1_2/%d_%d_%d/%d_%d_%d?supervoxels=%t", n[0], n[1], n[2], off[0], off[1], off[2], supervoxels)))
 	if status(r) != stOK || len(r.Body) != 8*s.g.NVox() {
 		return make([]uint64, s.g.NVox()), stErr
 	}
@@ -181,7 +181,7 @@ func (s Srv) getRaw(uuid string, supervoxels bool) ([]uint64, int) {
 func (s Srv) getRawLo(uuid string, supervoxels bool) ([]uint64, int) {
 	h := s.g.Half()
 	n, off := h.N(), h.Off()
-	r := dv.Get(s.url(uuid, fmt.Sprintf("raw/0_1_2/%d_%d_%d/%d_%d_%d?scale=1&supervoxels=%t", n[0], n[1], n[2], off[0], off[1], off[2], supervoxels)))
+	r := tr.Get(s.url(uuid, fmt.Sprintf("raw/0_1_2/%d_%d_%d/%d_%d_%d?scale=1&supervoxels=%t", n[0], n[1], n[2], off[0], off[1], off[2], supervoxels)))
 	if status(r) != stOK || len(r.Body) != 8*h.NVox() {
 		return make([]uint64, h.NVox()), stErr
 	}
@@ -203,7 +203,7 @@ func (s Srv) postRaw(uuid string, vol []uint64, b0, nb [3]int, mutate bool) dv.R
 	if mutate {
 		u += "?mutate=true"
 	}
-	return dv.Post(u, u64bytes(sub))
+	return tr.Post(u, u64bytes(sub))
 }
 
 // ---- per-label reads ----
@@ -256,7 +256,7 @@ type Tri struct {
 }
 
 func (s Srv) getSize(uuid string, label uint64, sv bool) Tri {
-	r := dv.Get(s.url(uuid, fmt.Sprintf("size/%d?supervoxels=%t", label, sv)))
+	r := tr.Get(s.url(uuid, fmt.Sprintf("size/%d?supervoxels=%t", label, sv)))
 	st := status(r)
 	if st != stOK {
 		return Tri{St: st}
@@ -269,7 +269,7 @@ func (s Srv) getSize(uuid string, label uint64, sv bool) Tri {
 }
 
 func (s Srv) getSizes(uuid string, lbls []uint64, sv bool) ([]uint64, int) {
-	r := dv.Do("GET", s.url(uuid, fmt.Sprintf("sizes?supervoxels=%t", sv)), u64json(lbls))
+	r := tr.Do("GET", s.url(uuid, fmt.Sprintf("sizes?supervoxels=%t", sv)), u64json(lbls))
 	if status(r) != stOK {
 		return nil, status(r)
 	}
@@ -281,7 +281,7 @@ func (s Srv) getSizes(uuid string, lbls []uint64, sv bool) ([]uint64, int) {
 }
 
 func (s Srv) getSupervoxels(uuid string, label uint64) ([]uint64, int) {
-	r := dv.Get(s.url(uuid, fmt.Sprintf("supervoxels/%d", label)))
+	r := tr.Get(s.url(uuid, fmt.Sprintf("supervoxels/%d", label)))
 	if status(r) != stOK {
 		return nil, status(r)
 	}
@@ -294,7 +294,7 @@ func (s Srv) getSupervoxels(uuid string, label uint64) ([]uint64, int) {
 }
 
 func (s Srv) getSupervoxelSizes(uuid string, label uint64) ([][2]uint64, int) {
-	r := dv.Get(s.url(uuid, fmt.Sprintf("supervoxel-sizes/%d", label)))
+	r := tr.Get(s.url(uuid, fmt.Sprintf("supervoxel-sizes/%d", label)))
 	if status(r) != stOK {
 		return nil, status(r)
 	}
@@ -328,7 +328,7 @@ type IdxEntry struct {
 }
 
 func (s Srv) getIndex(uuid string, label uint64) ([]IdxEntry, uint64, int) {
-	r := dv.Get(s.url(uuid, fmt.Sprintf("index/%d", label)))
+	r := tr.Get(s.url(uuid, fmt.Sprintf("index/%d", label)))
 	if status(r) != stOK {
 		return nil, 0, status(r)
 	}
@@ -405,7 +405,7 @@ func (s Srv) parseRLEs(body []byte, blockCoords bool) ([]Run, bool) {
 }
 
 func (s Srv) getSparsevol(uuid string, label uint64, sv bool) ([]Run, int) {
-	r := dv.Get(s.url(uuid, fmt.Sprintf("sparsevol/%d?format=rles&supervoxels=%t", label, sv)))
+	r := tr.Get(s.url(uuid, fmt.Sprintf("sparsevol/%d?format=rles&supervoxels=%t", label, sv)))
 	if status(r) != stOK {
 		return nil, status(r)
 	}
@@ -417,7 +417,7 @@ func (s Srv) getSparsevol(uuid string, label uint64, sv bool) ([]Run, int) {
 }
 
 func (s Srv) getCoarse(uuid string, label uint64) ([]Run, int) {
-	r := dv.Get(s.url(uuid, fmt.Sprintf("sparsevol-coarse/%d", label)))
+	r := tr.Get(s.url(uuid, fmt.Sprintf("sparsevol-coarse/%d", label)))
 	if status(r) != stOK {
 		return nil, status(r)
 	}
@@ -434,7 +434,7 @@ type SVolSize struct {
 }
 
 func (s Srv) getSparsevolSize(uuid string, label uint64) (SVolSize, int) {
-	r := dv.Get(s.url(uuid, fmt.Sprintf("sparsevol-size/%d", label)))
+	r := tr.Get(s.url(uuid, fmt.Sprintf("sparsevol-size/%d", label)))
 	if status(r) != stOK {
 		return SVolSize{}, status(r)
 	}
@@ -458,7 +458,7 @@ func (s Srv) getSparsevolSize(uuid string, label uint64) (SVolSize, int) {
 
 func (s Srv) getLabelAt(uuid string, p [3]int, sv bool) Tri {
 	off := s.g.Off()
-	r := dv.Get(s.url(uuid, fmt.Sprintf("label/%d_%d_%d?supervoxels=%t", p[0]+off[0], p[1]+off[1], p[2]+off[2], sv)))
+	r := tr.Get(s.url(uuid, fmt.Sprintf("label/%d_%d_%d?supervoxels=%t", p[0]+off[0], p[1]+off[1], p[2]+off[2], sv)))
 	if status(r) != stOK {
 		return Tri{St: status(r)}
 	}
@@ -475,7 +475,7 @@ func (s Srv) getLabels(uuid string, pts [][3]int, sv bool) ([]uint64, int) {
 	for i, p := range pts {
 		ss[i] = fmt.Sprintf("[%d,%d,%d]", p[0]+off[0], p[1]+off[1], p[2]+off[2])
 	}
-	r := dv.Do("GET", s.url(uuid, fmt.Sprintf("labels?supervoxels=%t", sv)), []byte("["+strings.Join(ss, ",")+"]"))
+	r := tr.Do("GET", s.url(uuid, fmt.Sprintf("labels?supervoxels=%t", sv)), []byte("["+strings.Join(ss, ",")+"]"))
 	if status(r) != stOK {
 		return nil, status(r)
 	}
@@ -487,7 +487,7 @@ func (s Srv) getLabels(uuid string, pts [][3]int, sv bool) ([]uint64, int) {
 }
 
 func (s Srv) getMapping(uuid string, svs []uint64) ([]uint64, int) {
-	r := dv.Do("GET", s.url(uuid, "mapping"), u64json(svs))
+	r := tr.Do("GET", s.url(uuid, "mapping"), u64json(svs))
 	if status(r) != stOK {
 		return nil, status(r)
 	}
@@ -499,7 +499,7 @@ func (s Srv) getMapping(uuid string, svs []uint64) ([]uint64, int) {
 }
 
 func (s Srv) getMappings(uuid string) ([][2]uint64, int) {
-	r := dv.Get(s.url(uuid, "mappings"))
+	r := tr.Get(s.url(uuid, "mappings"))
 	if status(r) != stOK {
 		return nil, status(r)
 	}
@@ -524,7 +524,7 @@ func (s Srv) getMappings(uuid string) ([][2]uint64, int) {
 }
 
 func (s Srv) getListLabels(uuid string) ([][2]uint64, int) {
-	r := dv.Get(s.url(uuid, "listlabels?sizes=true"))
+	r := tr.Get(s.url(uuid, "listlabels?sizes=true"))
 	if status(r) != stOK || len(r.Body)%16 != 0 {
 		return nil, stErr
 	}
@@ -536,7 +536,7 @@ func (s Srv) getListLabels(uuid string) ([][2]uint64, int) {
 }
 
 func (s Srv) getMaxLabel(uuid string) Tri {
-	r := dv.Get(s.url(uuid, "maxlabel"))
+	r := tr.Get(s.url(uuid, "maxlabel"))
 	if status(r) != stOK {
 		return Tri{St: status(r)}
 	}
